@@ -31,8 +31,8 @@ def loader_obligations(prop):
                                    r"nvm_crc32\.precondition"], min_checks=500,
                         witness={"replayer": "loader", "override": {"loops": False, "annotate": [], "unwind": 16,
                                  "object_bits": 10, "timeout": 600}},
-                        fallback={"loops": False, "annotate": [], "unwind": 3, "object_bits": 12, "timeout": 900,
-                                  "defines": {"VERIF_KIND": k, "VERIF_MAX_SIZE": 58}, "must_have": [r"nvm_deserialize\.postcondition"]}))
+                        fallback={"loops": False, "annotate": [], "unwind": 6, "object_bits": 12, "timeout": 900,
+                                  "defines": {"VERIF_KIND": k, "VERIF_MAX_SIZE": 46}, "must_have": [r"nvm_deserialize\.postcondition"]}))
     # imports arm: realloc/malloc inside the loop -> CBMC 6.11 loop contracts refuse dynamic allocation in loops;
     # bounded stand-in, never counted as proved
     obs.append(dict(id="%s.deser.imports.bounded" % prop, prop=prop, harness=LOADER, entry="h_deser", tier="thorough",
